@@ -8,7 +8,7 @@ followed by the beam-sync retry loop: supply only the reported node and retry.
 from trie.exceptions import MissingTraversalNode, MissingTrieNode, TraversedPartialPath
 
 from ..core import HarnessError, Stats, Violation, deep, hx, unhx
-from ..hgen import HistoryGen, make_pool, make_values, probe_keys
+from ..hgen import HistoryGen, make_pool, make_values, probe_keys, rare_huge
 from ..hworld import HWorld
 from ..models.mpt import RefMPT, nibbles_of
 
@@ -353,7 +353,7 @@ def sample_call(rng, pool, probes, values, present, on):
 
 
 def generate(rng):
-    pool = make_pool(rng, size=rng.choice([3, 4, 5, 6, 8, 10, 12, 16, 24]))
+    pool = make_pool(rng, size=rng.choice([3, 4, 5, 6, 8, 10, 12, 16, 24]), style=rare_huge(rng))
     values = make_values(rng)
     probes = probe_keys(rng, pool, extra=2)
     prune = rng.random() < 0.5
